@@ -2,5 +2,6 @@
 package all
 
 import (
+	_ "verifmc/props/c03"
 	_ "verifmc/props/c15"
 )
